@@ -90,6 +90,13 @@ type ND struct {
 	RDNSSLifetime               uint32
 	RDNSS                       []netip.Addr
 	HasRDNSS                    bool
+	DNSSLLifetime               uint32
+	DNSSL                       []string
+	HasDNSSL                    bool
+	RoutePrefix                 netip.Prefix
+	RoutePrf                    byte
+	RouteLifetime               uint32
+	HasRoute                    bool
 }
 
 type DHCPOpt struct {
@@ -520,6 +527,47 @@ func (f *Frame) ndOptions(p []byte) {
 			}
 			nd.MTU = binary.BigEndian.Uint32(o.Data[2:6])
 			nd.HasMTU = true
+		case 24:
+			if l != 8 && l != 16 && l != 24 {
+				f.errf("nd route information option: %d bytes", l)
+				break
+			}
+			d := o.Data
+			var a [16]byte
+			copy(a[:], d[6:])
+			nd.HasRoute = true
+			nd.RoutePrefix = netip.PrefixFrom(netip.AddrFrom16(a), int(d[0]))
+			nd.RoutePrf = (d[1] >> 3) & 3
+			nd.RouteLifetime = binary.BigEndian.Uint32(d[2:6])
+		case 31:
+			if l < 16 {
+				f.errf("nd dnssl option: %d bytes", l)
+				break
+			}
+			nd.HasDNSSL = true
+			nd.DNSSLLifetime = binary.BigEndian.Uint32(o.Data[2:6])
+			d := o.Data[6:]
+			name := ""
+			for i := 0; i < len(d); {
+				n := int(d[i])
+				if n == 0 {
+					if name != "" {
+						nd.DNSSL = append(nd.DNSSL, name)
+						name = ""
+					}
+					i++
+					continue
+				}
+				if i+1+n > len(d) {
+					f.errf("nd dnssl option: label runs past the option")
+					break
+				}
+				if name != "" {
+					name += "."
+				}
+				name += string(d[i+1 : i+1+n])
+				i += 1 + n
+			}
 		case 25:
 			if l < 24 || (l-8)%16 != 0 {
 				f.errf("nd rdnss option: %d bytes", l)
